@@ -223,6 +223,23 @@ _ARCCOS = z3.Function("arccos", z3.RealSort(), z3.RealSort())
 PI = z3.Real("pi")
 
 
+def is_sum_of_squares(t):
+    """t is syntactically a sum of terms e*e and non-negative numerals"""
+    stack = [t]
+    while stack:
+        e = stack.pop()
+        if z3.is_app(e) and e.decl().kind() == z3.Z3_OP_ADD:
+            stack.extend(e.children())
+        elif z3.is_rational_value(e):
+            if e.numerator_as_long() < 0:
+                return False
+        elif z3.is_app(e) and e.decl().kind() == z3.Z3_OP_MUL and len(e.children()) == 2 and e.children()[0].eq(e.children()[1]):
+            continue
+        else:
+            return False
+    return True
+
+
 def _caller_site():
     """file:line of the innermost frame inside /repo (for naming definedness side conditions)"""
     f = sys._getframe(2)
@@ -553,6 +570,11 @@ class SymReal:
                 return SymReal(Fraction(rn, rd), self.u)
         t = self.z
         s = _SQRT(t)
+        if is_sum_of_squares(t):
+            # argument is syntactically a sum of squares: non-negative, the axiom needs no guard
+            if CTX.active:
+                CTX.axiom(("sqrt", t.get_id()), z3.And(s >= 0, s * s == t))
+            return SymReal(s, self.u)
         if CTX.active:
             CTX.axiom(("sqrt", t.get_id()), z3.Implies(t >= 0, z3.And(s >= 0, s * s == t)))
         return SymReal(s, _or(self.u, t < 0))
@@ -1093,3 +1115,82 @@ def sym_array(name, shape):
 
 def sym_scalar(name):
     return SymReal(z3.Real(name))
+
+
+def float_eval(t, env, default=1.0):
+    """numeric value of a z3 term under a float assignment of its constants (real semantics for the
+    uninterpreted sqrt/log/cos/sin/arccos); used only to build concrete shadow instances"""
+    import math
+
+    memo = {}
+
+    def ev(e):
+        k = e.get_id()
+        if k in memo:
+            return memo[k]
+        r = _ev(e)
+        memo[k] = r
+        return r
+
+    def _ev(e):
+        if z3.is_rational_value(e):
+            return e.numerator_as_long() / e.denominator_as_long()
+        if z3.is_int_value(e):
+            return float(e.as_long())
+        if z3.is_true(e):
+            return True
+        if z3.is_false(e):
+            return False
+        kind = e.decl().kind()
+        ch = e.children()
+        if kind == z3.Z3_OP_UNINTERPRETED:
+            nm = e.decl().name()
+            if not ch:
+                return env.get(nm, default)
+            a = ev(ch[0])
+            try:
+                return {"sqrt": lambda: math.sqrt(max(a, 0.0)), "log": lambda: math.log(a) if a > 0 else 0.0, "cos": lambda: math.cos(a),
+                        "sin": lambda: math.sin(a), "arccos": lambda: math.acos(max(-1.0, min(1.0, a)))}[nm]()
+            except KeyError:
+                return default
+        if kind == z3.Z3_OP_ADD:
+            return sum(ev(c) for c in ch)
+        if kind == z3.Z3_OP_SUB:
+            r = ev(ch[0])
+            for c in ch[1:]:
+                r -= ev(c)
+            return r
+        if kind == z3.Z3_OP_UMINUS:
+            return -ev(ch[0])
+        if kind == z3.Z3_OP_MUL:
+            r = 1.0
+            for c in ch:
+                r *= ev(c)
+            return r
+        if kind == z3.Z3_OP_DIV:
+            b = ev(ch[1])
+            return ev(ch[0]) / b if b != 0 else 0.0
+        if kind == z3.Z3_OP_ITE:
+            return ev(ch[1]) if ev(ch[0]) else ev(ch[2])
+        if kind == z3.Z3_OP_TO_REAL:
+            return ev(ch[0])
+        if kind == z3.Z3_OP_AND:
+            return all(ev(c) for c in ch)
+        if kind == z3.Z3_OP_OR:
+            return any(ev(c) for c in ch)
+        if kind == z3.Z3_OP_NOT:
+            return not ev(ch[0])
+        if kind == z3.Z3_OP_IMPLIES:
+            return (not ev(ch[0])) or ev(ch[1])
+        if kind in (z3.Z3_OP_LE, z3.Z3_OP_GE, z3.Z3_OP_LT, z3.Z3_OP_GT, z3.Z3_OP_EQ, z3.Z3_OP_DISTINCT):
+            a, b = ev(ch[0]), ev(ch[1])
+            if isinstance(a, bool) or isinstance(b, bool):
+                return (a == b) if kind == z3.Z3_OP_EQ else (a != b)
+            tol = 1e-9 * max(1.0, abs(a), abs(b))
+            return {z3.Z3_OP_LE: a <= b + tol, z3.Z3_OP_GE: a >= b - tol, z3.Z3_OP_LT: a < b, z3.Z3_OP_GT: a > b,
+                    z3.Z3_OP_EQ: abs(a - b) <= tol, z3.Z3_OP_DISTINCT: abs(a - b) > tol}[kind]
+        if e.sort_kind() == z3.Z3_BOOL_SORT and z3.is_const(e):
+            return bool(env.get(e.decl().name(), True))
+        return default
+
+    return ev(t)
